@@ -102,10 +102,13 @@ structure Basic (σ : State) : Prop where
   floorPub : σ.floor ≤ σ.pub
   compLe : ∀ m, σ.comp = some m → m ≤ σ.floor
   flushedFrozen : σ.flushed = true → σ.frozen ≠ none
-  frozenNe : σ.frozen ≠ some σ.mem
+  frozenLt : ∀ f, σ.frozen = some f → f < σ.mem
 
 theorem basic_init : Basic init := by
   constructor <;> simp [init, univ, privOf, Uniq, getBuf, privIn]
+
+theorem Basic.frozenNe {σ : State} (hb : Basic σ) : σ.frozen ≠ some σ.mem := by
+  intro h; have := hb.frozenLt _ h; omega
 
 theorem privIn_sub (tr : Option TrState) : ∀ e ∈ privIn tr, e ∈ privOf tr := by
   intro e he
